@@ -1209,12 +1209,13 @@ mzd_t *_mzd_mul_naive(mzd_t *C, mzd_t const *A, mzd_t const *B, const int clear)
   for (rci_t start = 0; start + blocksize <= C->nrows; start += blocksize) {
     for (rci_t i = start; i < start + blocksize; ++i) {
       word const *a = mzd_row_const(A, i);
+      word const a_last = a[wide - 1] & A->high_bitmask;
       word *c = mzd_row(C, i);
       for (rci_t j = 0; j < m4ri_radix * eol; j += m4ri_radix) {
         for (int k = 0; k < m4ri_radix; ++k) {
           word const *b = mzd_row_const(B, j + k);
-          parity[k] = a[0] & b[0];
-          for (wi_t ii = wide - 1; ii >= 1; --ii) parity[k] ^= a[ii] & b[ii];
+          parity[k] = a_last & b[wide - 1];
+          for (wi_t ii = wide - 2; ii >= 0; --ii) parity[k] ^= a[ii] & b[ii];
         }
         c[j / m4ri_radix] ^= m4ri_parity64(parity);
       }
@@ -1226,8 +1227,8 @@ mzd_t *_mzd_mul_naive(mzd_t *C, mzd_t const *A, mzd_t const *B, const int clear)
          */
         for (int k = 0; k < (C->ncols % m4ri_radix); ++k) {
           word const *b = mzd_row_const(B, m4ri_radix * eol + k);
-          parity[k] = a[0] & b[0];
-          for (wi_t ii = 1; ii < A->width; ++ii) parity[k] ^= a[ii] & b[ii];
+          parity[k] = a_last & b[wide - 1];
+          for (wi_t ii = 0; ii < wide - 1; ++ii) parity[k] ^= a[ii] & b[ii];
         }
         c[eol] ^= m4ri_parity64(parity) & mask_end;
       }
@@ -1236,12 +1237,13 @@ mzd_t *_mzd_mul_naive(mzd_t *C, mzd_t const *A, mzd_t const *B, const int clear)
 
   for (rci_t i = C->nrows - (C->nrows % blocksize); i < C->nrows; ++i) {
     word const *a = mzd_row_const(A, i);
+    word const a_last = a[wide - 1] & A->high_bitmask;
     word *c = mzd_row(C, i);
     for (rci_t j = 0; j < m4ri_radix * eol; j += m4ri_radix) {
       for (int k = 0; k < m4ri_radix; ++k) {
         word const *b = mzd_row_const(B, j + k);
-        parity[k] = a[0] & b[0];
-        for (wi_t ii = wide - 1; ii >= 1; --ii) parity[k] ^= a[ii] & b[ii];
+        parity[k] = a_last & b[wide - 1];
+        for (wi_t ii = wide - 2; ii >= 0; --ii) parity[k] ^= a[ii] & b[ii];
       }
       c[j / m4ri_radix] ^= m4ri_parity64(parity);
     }
@@ -1252,8 +1254,8 @@ mzd_t *_mzd_mul_naive(mzd_t *C, mzd_t const *A, mzd_t const *B, const int clear)
       /* asm __volatile__ (".p2align 4\n\tnop\n\tnop\n\tnop\n\tnop\n\tnop\n\tnop\n\tnop\n\tnop"); */
       for (int k = 0; k < (C->ncols % m4ri_radix); ++k) {
         word const *b = mzd_row_const(B, m4ri_radix * eol + k);
-        parity[k] = a[0] & b[0];
-        for (wi_t ii = 1; ii < A->width; ++ii) parity[k] ^= a[ii] & b[ii];
+        parity[k] = a_last & b[wide - 1];
+        for (wi_t ii = 0; ii < wide - 1; ++ii) parity[k] ^= a[ii] & b[ii];
       }
       c[eol] ^= m4ri_parity64(parity) & mask_end;
     }
